@@ -33,6 +33,8 @@ func init() {
 			c.min("R-COMPACT/widths", 5)
 			c.ruleCompactEnc("R-COMPACT/enc")
 			c.min("R-COMPACT/enc", 4)
+			c.ruleBigTrunc("R-BIGTRUNC", "pkg/scale", "(*encodeState).encodeBigInt")
+			c.min("R-BIGTRUNC", 4)
 			c.ruleCodecSwitchAgree("R-CODECSWITCH")
 			c.min("R-CODECSWITCH", 2)
 			c.ruleVDT("R-VDT", false, allVDTDirs...)
